@@ -76,6 +76,12 @@ static bool apply(std::vector<S>& L, const Tr& t, int step, int& stateId) {
 			else if (t.op == "ReadPrefixedU32") r.Read<uint32_t>(str); else r.Read<int32_t>(str);
 			got.assign(str.begin(), str.end()); n = got.size();
 		}
+		else if (t.op.rfind("ReadValue", 0) == 0) { hasData = true;
+			if (t.op == "ReadValue8") { uint8_t v; r.Read(v); memcpy(buf + 8, &v, n = 1); } else if (t.op == "ReadValue16") { uint16_t v; r.Read(v); memcpy(buf + 8, &v, n = 2); }
+			else if (t.op == "ReadValue32") { uint32_t v; r.Read(v); memcpy(buf + 8, &v, n = 4); } else { uint64_t v; r.Read(v); memcpy(buf + 8, &v, n = 8); } }
+		else if (t.op.rfind("ReadContainer", 0) == 0) { hasData = true; const std::size_t cnt = (std::size_t)t.av;
+			if (t.op == "ReadContainer8") { std::vector<uint8_t> v(cnt, 0xEE); r.Read(v); n = cnt; if (n) memcpy(buf + 8, v.data(), n); } else if (t.op == "ReadContainer16") { std::vector<uint16_t> v(cnt, 0xEEEE); r.Read(v); n = cnt * 2; if (n) memcpy(buf + 8, v.data(), n); }
+			else if (t.op == "ReadContainer32") { std::vector<uint32_t> v(cnt, 0xEEEEEEEEu); r.Read(v); n = cnt * 4; if (n) memcpy(buf + 8, v.data(), n); } else { std::vector<uint64_t> v(cnt, 0xEEEEEEEEEEEEEEEEull); r.Read(v); n = cnt * 8; if (n) memcpy(buf + 8, v.data(), n); } }
 		else if (t.op == "ReadCString") { std::string str = r.ReadNullTerminatedString((std::size_t)t.av); got.assign(str.begin(), str.end()); n = got.size(); }
 	} catch (const std::exception&) { ok = false; }
 	const std::string site = site_of(t);
